@@ -293,6 +293,7 @@ class Exec:
         self.cur_func = c.label or qual
         st = State(self)
         args = c.setup(self, st)          # dict param -> value; assumes pre
+        self.args0 = dict(args)
         st.env.update(args)
         st.env['$args'] = dict(args)
         st.ghost['$diag'] = 0
